@@ -1,7 +1,7 @@
 ID = 'C13'
 CXX_SOURCES = []
 GROUPS = ['common']
-WRAP = ['clock_gettime']
+WRAP = ['clock_gettime', 'time']
 # zero-length VLAs (GET TEST_DATA with pattern length 0, empty lists) are a GCC extension, not an access
 CXXFLAGS = ['-fno-sanitize=vla-bound']
 PROC_TIMEOUT = 1500
@@ -20,16 +20,132 @@ def gen_consts(v):
         'SENSOR_RECORDED_RANGE_VALUES SENSOR_RECORDED_UNSUPPORTED SENSOR_RECORDED_RANGE_UNSUPPORTED '
         'MAX_RDM_TEST_DATA_PATTERN_LENGTH RDM_VERSION_1_0 PID_STATUS_MESSAGES PID_DEVICE_MODEL_DESCRIPTION '
         'PID_MANUFACTURER_LABEL PID_DEVICE_LABEL PID_DMX_PERSONALITY PID_DMX_PERSONALITY_DESCRIPTION '
-        'STATUS_GET_LAST_MESSAGE MAX_QUEUED_MESSAGE_COUNT OLA_ACK_TIMER_MODEL PRODUCT_CATEGORY_TEST').split()]
+        'STATUS_GET_LAST_MESSAGE MAX_QUEUED_MESSAGE_COUNT OLA_ACK_TIMER_MODEL PRODUCT_CATEGORY_TEST '
+        'OLA_SENSOR_ONLY_MODEL OLA_DUMMY_DIMMER_MODEL OLA_DUMMY_MOVING_LIGHT_MODEL OLA_DUMMY_DEVICE_MODEL '
+        'PID_PRODUCT_DETAIL_ID_LIST PID_SENSOR_DEFINITION PID_SENSOR_VALUE PID_RECORD_SENSORS PID_IDENTIFY_MODE '
+        'PID_DMX_BLOCK_ADDRESS IDENTIFY_MODE_QUIET IDENTIFY_MODE_LOUD PRODUCT_DETAIL_TEST PRODUCT_CATEGORY_DIMMER '
+        'PRODUCT_CATEGORY_FIXTURE_MOVING_YOKE OLA_MANUFACTURER_PID_CODE_VERSION').split()]
+    ents += [(n + '_V', R + n) for n in ('LAMP_ON LAMP_STANDBY LAMP_ON_MODE_DMX LAMP_ON_MODE_ON_AFTER_CAL DISPLAY_INVERT_AUTO '
+                                         'POWER_STATE_NORMAL RESET_WARM RESET_COLD DS_ASCII CC_GET').split()]
     ents += [(n, R + 'RDMCommand::' + n) for n in (
         'DISCOVER_COMMAND DISCOVER_COMMAND_RESPONSE GET_COMMAND GET_COMMAND_RESPONSE '
         'SET_COMMAND SET_COMMAND_RESPONSE').split()]
     ents += [('ALL_DEVICES', R + 'UID::ALL_DEVICES'), ('ALL_MANUFACTURERS', R + 'UID::ALL_MANUFACTURERS'),
              ('DMX_UNIVERSE_SIZE', 'ola::DMX_UNIVERSE_SIZE'), ('DMX_MAX_SLOT_VALUE', 'ola::DMX_MAX_SLOT_VALUE'),
              ('MAX_PDL', R + 'RDMCommandSerializer::MAX_PARAM_DATA_LENGTH')]
+    err = gen_tables(v)
+    if err:
+        return err
     return v.gen_consts_cpp(ID, ['ola/Constants.h', 'ola/rdm/RDMCommand.h', 'ola/rdm/RDMCommandSerializer.h',
                                  'ola/rdm/RDMEnums.h', 'ola/rdm/OpenLightingEnums.h', 'ola/rdm/RDMResponseCodes.h', 'ola/rdm/UID.h'],
                             ents, os.path.join(v.VERIF, 'props', ID, 'coq', 'Gen.v'))
+
+def gen_tables(v):
+    """GenTables.v: the (pid, has GET handler, has SET handler) table of every built-in responder, as
+    ResponderOps stores it (ascending PID, placeholder for SUPPORTED_PARAMETERS).  The handler arrays are
+    read from the .cpp files, the PID values come from the compiler."""
+    import os, re, subprocess
+    classes = ['SensorResponder', 'DimmerRootDevice', 'DimmerSubDevice', 'AckTimerResponder', 'DummyResponder',
+               'MovingLightResponder', 'AdvancedDimmerResponder', 'NetworkResponder']
+    tables, names = {}, set()
+    for c in classes:
+        src = open(v.repo_path('common/rdm/%s.cpp' % c)).read()
+        m = re.search(r'PARAM_HANDLERS\[\]\s*=\s*\{(.*?)\n\};', src, re.S)
+        if not m:
+            return 'no PARAM_HANDLERS array in %s.cpp' % c
+        body = re.sub(r'#ifdef HAVE_GETLOADAVG|#endif[^\n]*', '', m.group(1))
+        ents = re.findall(r'\{\s*(\w+)\s*,\s*(&\s*\w+::\w+|NULL)\s*,\s*(&\s*\w+::\w+|NULL)\s*\}', body)
+        ents = [e for e in ents if e[0] != '0']
+        tables[c] = ents
+        names.update(e[0] for e in ents)
+    # personalities and their slot data (DummyResponder, MovingLightResponder)
+    def balanced(s, i):
+        d, j = 0, i
+        while True:
+            if s[j] == '(':
+                d += 1
+            elif s[j] == ')':
+                d -= 1
+                if d == 0:
+                    return s[i + 1:j], j
+            j += 1
+    def args(s):
+        out, cur, d, q = [], '', 0, False
+        for ch in s:
+            if ch == '"':
+                q = not q
+            if not q and ch == '(':
+                d += 1
+            if not q and ch == ')':
+                d -= 1
+            if not q and d == 0 and ch == ',':
+                out.append(cur.strip()); cur = ''
+            else:
+                cur += ch
+        out.append(cur.strip())
+        return out
+    def cstr(a):
+        return [ord(ch) for ch in ''.join(re.findall(r'"([^"]*)"', a))]
+    pers = {}
+    for c in ('DummyResponder', 'MovingLightResponder'):
+        src = re.sub(r'//[^\n]*', '', open(v.repo_path('common/rdm/%s.cpp' % c)).read())
+        slots = {}
+        for m in re.finditer(r'(\w+)\.push_back\(', src):
+            body, _ = balanced(src, m.end() - 1)
+            body = body.strip()
+            sm = re.match(r'SlotData::(Primary|Secondary)Slot\s*\(', body)
+            if sm:
+                a = args(balanced(body, sm.end() - 1)[0])
+                if sm.group(1) == 'Primary':
+                    ent = ('0', a[0], a[1], a[2] if len(a) > 2 else None)
+                    names.add(a[0])
+                else:
+                    ent = (a[0], a[1], a[2], a[3] if len(a) > 3 else None)
+                    names.add(a[0])
+                slots.setdefault(m.group(1), []).append(ent)
+            pm = re.match(r'Personality\s*\(', body)
+            if pm:
+                a = args(balanced(body, pm.end() - 1)[0])
+                sl = re.search(r'SlotDataCollection\((\w+)\)', a[2]).group(1) if len(a) > 2 else None
+                pers.setdefault(c, []).append((a[0], cstr(a[1]), sl))
+        pers[c] = [(fp, d, slots.get(sl, []) if sl else []) for fp, d, sl in pers.get(c, [])]
+    names = sorted(names)
+    bdir = os.path.join(v.BUILD, ID)
+    os.makedirs(bdir, exist_ok=True)
+    cpp, exe = os.path.join(bdir, 'gentables.cpp'), os.path.join(bdir, 'gentables')
+    with open(cpp, 'w') as f:
+        f.write('#include <stdio.h>\n#include "ola/rdm/RDMEnums.h"\n#include "ola/rdm/OpenLightingEnums.h"\n'
+                'using namespace ola::rdm;\nint main() {\n' +
+                ''.join('printf("%s %%u\\n", (unsigned)(%s));\n' % (n, n) for n in names) + 'return 0; }\n')
+    r = subprocess.run(['ccache', 'g++', '-std=gnu++11', '-DHAVE_CONFIG_H', '-w'] + v.include_flags() + [cpp, '-o', exe],
+                       stdout=subprocess.PIPE, stderr=subprocess.PIPE)
+    if r.returncode:
+        return 'gentables compile error: ' + r.stderr.decode(errors='replace')[-1500:]
+    vals = dict(l.split() for l in subprocess.run([exe], stdout=subprocess.PIPE).stdout.decode().split('\n') if l)
+    out = ['(* REGENERATED from common/rdm/*Responder*.cpp (PARAM_HANDLERS) and the RDM enums on every run. Do not edit. *)',
+           'From Coq Require Import NArith List.', 'Import ListNotations.', 'Local Open Scope N_scope.']
+    for c in classes:
+        t = {0x50: ('false', 'false')}
+        for n, g, s in tables[c]:
+            t[int(vals[n])] = ('false' if g == 'NULL' else 'true', 'false' if s == 'NULL' else 'true')
+        out.append('Definition TBL_%s : list (N * (bool * bool)) :=\n  [%s].' % (
+            c, '; '.join('(%d, (%s, %s))' % (k, t[k][0], t[k][1]) for k in sorted(t))))
+    def nl(l):
+        return '[' + '; '.join(str(x) for x in l) + ']'
+    for c in sorted(pers):
+        rows = []
+        for fp, d, sl in pers[c]:
+            srows = ['(%s, %s, %s, %s, %s)' % (vals.get(t, t), vals.get(i, i), dv, 'false' if ds is None else 'true',
+                                               nl(cstr(ds)) if ds is not None else '[]') for t, i, dv, ds in sl]
+            rows.append('(%s, %s, [%s])' % (fp, nl(d), '; '.join(srows)))
+        out.append('(* footprint, description, slots (type, id, default, has description, description) *)')
+        out.append('Definition PERS_%s : list (N * list N * list (N * N * N * bool * list N)) :=\n  [%s].' % (
+            c, ';\n   '.join(rows)))
+    new = '\n'.join(out) + '\n'
+    path = os.path.join(v.VERIF, 'props', ID, 'coq', 'GenTables.v')
+    if not os.path.exists(path) or open(path).read() != new:
+        open(path, 'w').write(new)
+    return None
 
 # ------------------------------------------------------------------ case generation
 import os as _os, re as _re
@@ -359,6 +475,91 @@ def gen_fields(rng, tier):
         for ch in chunks(reqs, 48):
             yield seq_case(rng, kind, ch)
 
+def _label_strings(model, label):
+    ver = _re.search(r'#define VERSION "([^"]*)"', open(_repo_file('config.h')).read()).group(1)
+    manu = _re.search(r'OLA_MANUFACTURER_LABEL\[\]\s*=\s*"([^"]*)"',
+                      open(_repo_file('common/rdm/OpenLightingEnums.cpp')).read()).group(1)
+    return ' '.join(hx([ord(c) for c in s]) for s in (model, manu, label, 'OLA Version ' + ver))
+
+def _field_reqs(rng, pid, cc, sub, n_variants=1):
+    """a described request for pid with plausible / boundary field values (see gen_fields)"""
+    d = pid_descriptors().get(pid)
+    leaves = _flatten(d['set' if cc == SET else 'get']) if d else []
+    if not leaves:
+        return [req(OWN, sub, cc, pid, rdata(rng, rng.choice([0, 0, 1, 2])))]
+    out = []
+    for _ in range(n_variants):
+        vals = [(rng.choice([0, 1, 1, 2, 3]) if w != 'S' else rng.choice([0, 3, 32])) for (w, _, _) in leaves]
+        i = rng.randrange(len(leaves))
+        if rng.random() < 0.6:
+            vals[i] = rng.choice(leaves[i][1])
+        out.append(req(OWN, sub, cc, pid, _enc(leaves, vals, rng)))
+    return out
+
+def gen_resp(rng, tier):
+    """full-reply correspondence of whole responders with their handler-by-handler models (Responders.v)"""
+    quick = tier == 'quick'
+    sup = supported_pids()
+    def walk(kind, subs, length):
+        pids = sup[kind] + [0x51, 0x7fff, 0x1001]
+        seq = []
+        for _ in range(length):
+            pid = rng.choice(pids)
+            cc = rng.choice([GET, GET, SET, SET, SET, DISC])
+            sub = rng.choice(subs)
+            k = rng.random()
+            if k < 0.65:
+                r = _field_reqs(rng, pid, cc, sub)[0]
+            else:
+                r = req(DESTS[rng.choice(['own'] * 5 + sorted(DESTS))], sub, cc, pid, rdata(rng, rng.choice(LENS[:10])))
+            seq.append(r)
+        return retag(rng, seq)
+    strs = _label_strings('OLA Sensor Device', 'Sensor Device')
+    for _ in range(80 if quick else 2500):
+        ns = rng.choice([3, 3, 3, 0])
+        init = ','.join(str(rng.choice(I16 + [rng.randrange(65536)])) for _ in range(4 * ns)) or '-'
+        seq = walk('sensor', [0, 0, 0, 0, 1, 0xffff], rng.choice([8, 24, 48]))
+        # sensor numbers at their boundaries
+        for i in range(len(seq)):
+            if rng.random() < 0.35:
+                f = seq[i].split(',')
+                pid = rng.choice([0x200, 0x201, 0x201, 0x202])
+                f[4], f[5], f[6] = '0', str(rng.choice([GET, SET])), str(pid)
+                f[7] = hx([rng.choice([0, 1, 2, 3, 254, 255])])
+                seq[i] = ','.join(f)
+        yield 'resp sensor %d %s %s %s' % (OWN, strs, init, '/'.join(seq))
+    import time as _time
+    strs = _label_strings('OLA Moving Light', '-')
+    ver = _re.search(r'#define VERSION "([^"]*)"', open(_repo_file('config.h')).read()).group(1)
+    for _ in range(80 if quick else 2500):
+        epoch = rng.choice([1700000000, 951782399, 1, 4102444799, rng.randrange(1, 2000000000)])
+        tm = _time.gmtime(epoch)
+        init = '%s,%d,%d,%d,%d,%d,%d,%d' % (hx([ord(ch) for ch in ver]), epoch, tm.tm_year, tm.tm_mon, tm.tm_mday,
+                                            tm.tm_hour, tm.tm_min, tm.tm_sec)
+        seq = walk('moving', [0, 0, 0, 0, 0, 1, 0xffff], rng.choice([8, 24, 48]))
+        for i in range(len(seq)):
+            k = rng.random()
+            f = seq[i].split(',')
+            if k < 0.08:     # languages
+                f[4], f[5], f[6], f[7] = '0', str(SET), str(0xb0), hx([ord(ch) for ch in rng.choice(['en', 'fr', 'de', 'es', 'EN'])])
+            elif k < 0.14:   # parameter description of the manufacturer PID and of others
+                v = rng.choice([0x8001, 0x8001, 0x8000, 0x8002, 0x60])
+                f[4], f[5], f[6], f[7] = '0', str(GET), str(0x51), hx([v >> 8, v & 255])
+            elif k < 0.2:    # slot descriptions
+                f[4], f[5], f[6], f[7] = '0', str(GET), str(0x121), hx([0, rng.choice([0, 1, 3, 4, 7, 15, 16, 17, 18])])
+            elif k < 0.26:   # personalities
+                f[4], f[5], f[6], f[7] = '0', str(SET), str(0xe0), hx([rng.randrange(6)])
+            elif k < 0.3:
+                f[4], f[5], f[6], f[7] = '0', str(SET), str(0xf0), hx([rng.choice([0, 1, 1, 2]), rng.randrange(256)])
+            seq[i] = ','.join(f)
+        yield 'resp moving %d %s %s %s' % (OWN, strs, init, '/'.join(seq))
+    strs = _label_strings('OLA Dimmer', 'Dummy Dimmer')
+    for n in (0, 1, 2, 4, 8):
+        kind = 'dimmer' if n == 2 else 'dimmer%d' % n
+        for _ in range(30 if quick else 600):
+            seq = walk(kind, [0, 0, 1, 1, 2, n, n + 1, 0xffff, 0xffff], rng.choice([8, 24, 48]))
+            yield 'resp dimmer%d %d %s - %s' % (n, OWN, strs, '/'.join(seq))
+
 def chunks(l, n):
     for i in range(0, len(l), n):
         yield l[i:i + n]
@@ -528,7 +729,7 @@ def gen_help(rng, tier):
             yield 'help 23 %s %d -' % (R(rdata(rng, n, False)), rng.choice(mcs))
 
 def gen_cases(rng, tier):
-    for g in (gen_disp, gen_fan, gen_help, gen_ackt, gen_acktimer, gen_block, gen_fields, gen_sweeps):
+    for g in (gen_disp, gen_fan, gen_help, gen_ackt, gen_acktimer, gen_block, gen_fields, gen_resp, gen_sweeps):
         for c in g(rng, tier):
             yield c
 
@@ -537,6 +738,9 @@ def nontrivial(payload, md):
     if op == 'sweep':
         # a judged sequence containing at least one SET (snapshot pair) and one GET
         return md.get('chk') == 'ok' and ',48,' in payload and ',32,' in payload
+    if op == 'resp':
+        t = md.get('t', '')
+        return ',0,0,' in t and ',2,0,' in t      # at least one ACK and one NACK in the history
     if op == 'ackt':
         # a history in which an ACK_TIMER was sent and a queued message was later delivered
         t = md.get('t', '')
@@ -555,7 +759,7 @@ RULE = ('disp: scripted handler table on the real ResponderOps x PID {placeholde
         'PIDs (thorough: all 65536) x class x sub-device x destination x parameter lengths, in sequences of 40-512 requests with a '
         'snapshot of all GET-able parameters around every SET, every reply judged by the extracted chk_sweep, transaction number '
         'and controller UID different on neighbouring requests; fields: for every GET/SET described in the PID store (/repo/data/rdm) each field in turn at its descriptor range/label values +-1 and the generic width boundaries with the other fields valid; block: DMX_BLOCK_ADDRESS after per-sub-device changes on dimmers with 0/1/2/4/8 sub-devices; ackt: ack-timer histories with explicit clock steps around 400 ms '
-        '(SET->ACK_TIMER, queued-message delivery, STATUS_GET_LAST_MESSAGE, >255 queued), full replies compared with AckTimer.v. '
+        '(SET->ACK_TIMER, queued-message delivery, STATUS_GET_LAST_MESSAGE, >255 queued), full replies compared with AckTimer.v; resp: random/field-wise histories on the sensor responder, dimmers with 0/1/2/4/8 sub-devices and the moving light, full replies and final state compared with Responders.v / MovingLight.v. '
         'non-trivial = helper ACK / one completion carrying a response / a fully conformant sequence containing GETs and SETs; '
         'distinct = distinct model output line')
 ASSUMPTIONS = ['the completion callback passed to a responder is not NULL (HandleRDMRequest returns without completing otherwise)',
@@ -574,6 +778,10 @@ TRUSTED = ['modelled rather than verified: ResponderOps<T>::HandleRDMRequest/Han
            'AckTimerResponder (AckTimer.v): all 13 handlers, QueueAnyNewMessages, QueuedMessageCount, ResponseFromQueuedMessage; the clock '
            'is interposed (ld --wrap=clock_gettime) and advanced by the harness, the label strings are read from config.h / '
            'OpenLightingEnums.cpp by the generator and handed to the model as configuration',
+           'Responders.v / MovingLight.v: SensorResponder (sensors replaced by scripted test sensors in the harness: the real ones are '
+           'random / load averages), DimmerSubDevice, DimmerRootDevice, DimmerResponder composite, MovingLightResponder (time() is '
+           'interposed for REAL_TIME_CLOCK); GenTables.v is produced by prop.gen_tables from the .cpp sources (regex) with enum values '
+           'from the compiler',
            'FrequencyModulationSetting descriptions and the network helpers are not modelled (swept only); slot-table theorems assume '
            'the table fits one response (<=46 slots for SLOT_INFO, <=77 for DEFAULT_SLOT_VALUE) and that the active personality exists']
 LEVEL_TEXT = ('PARTIAL by design. Coq theorems, for all requests and EVERY handler behaviour, about an executable model of '
@@ -583,11 +791,16 @@ LEVEL_TEXT = ('PARTIAL by design. Coq theorems, for all requests and EVERY handl
               'of the SubDeviceDispatcher fan-out (exactly one completion, tracker never used after deletion, first sub-device\'s '
               'reply, resulting state) and of the generic ResponderHelper parsers (never read outside the parameter data, ACK or NACK '
               'with a legal reason for every length, state unchanged on NACK), all tied to the C++ by differential correspondence. '
-              'For ONE responder, the ack-timer responder, the handler hypothesis is discharged: its whole queue/timer state machine '
-              'is modelled (full-reply correspondence) and c13_acktimer proves every reply conformant after every history. '
-              'The per-PID handler bodies of the other seven responders (~140) are NOT modelled: for them the evidence is a sweep in '
-              'which every real reply (with before/after snapshots of all GET-able parameters) is judged by the extracted instance '
-              'checker chk_13, proved to imply the property text (c13_chk_sound) -- testing judged by a proved checker, not a theorem. '
+              'For FOUR of the eight responders the handler hypothesis is discharged: AckTimerResponder (c13_acktimer, queue/timer '
+              'state machine, every history), SensorResponder (c13_sensor), the dimmer\'s DimmerSubDevice and DimmerRootDevice '
+              '(c13_dimmer_sub, c13_dimmer_root; the composite DimmerResponder only through c13_fanout*) and MovingLightResponder '
+              '(c13_moving_light): every handler is modelled as the ResponderHelper call it is, the handler tables are checked against '
+              'tables regenerated from the PARAM_HANDLERS arrays (c13_tables), the moving light\'s personalities/slots are regenerated '
+              'from its source, and full replies + final state are compared with the real responders (resp/ackt classes). '
+              'DummyResponder, AdvancedDimmerResponder and NetworkResponder handler bodies (~85) are NOT modelled: for them the '
+              'evidence is a sweep in which every real reply (with before/after snapshots of all GET-able parameters) is judged by '
+              'the extracted instance checker chk_13, proved to imply the property text (c13_chk_sound) -- testing judged by a proved '
+              'checker, not a theorem. '
               'Two known findings are excluded narrowly (GET TEST_DATA > 231 bytes, refuted/partial theorems; mixed ACK/NACK of a SET '
               'fanned out to all sub-devices, c13_fanout_mixed_refuted / c13_fanout_partial).')
 LEVEL_NOTE = ('Trusted: Coq kernel, extraction (ExtrOcamlBasic), OCaml/C++ glue incl. the pipe to the checker service, generator '
